@@ -19,7 +19,7 @@ import time
 
 from ..core import Machinery, chunks, run_workers
 
-SCALE = 10 ** 15
+SCALE = 10 ** 17          # instance values are decimals with 17 digits after the point (floats that need 17 significant digits)
 ALIENU = 999999999
 EXT = {"BIF": "bif", "XMLBIF": "xmlbif", "UAI": "uai", "NET": "net"}
 KW_CLASSES = ["kw_bif", "kw_other", "kw_net", "kw_states"]
@@ -27,11 +27,11 @@ KW_CLASSES = ["kw_bif", "kw_other", "kw_net", "kw_states"]
 
 # =========================================================================== instances (main process, stdlib only)
 def _entry(k):
-    return {"ip": k // SCALE, "dg": [int(c) for c in "%015d" % (k % SCALE)]}
+    return {"ip": k // SCALE, "dg": [int(c) for c in "%017d" % (k % SCALE)]}
 
 
 def _tie_free(k):
-    return abs(k % 10 ** 11 - 5 * 10 ** 10) > 10 ** 6       # not within 1e-9 of a 5th-decimal tie
+    return abs(k % 10 ** 13 - 5 * 10 ** 12) > 10 ** 8       # not within 1e-9 of a 5th-decimal tie
 
 
 class _Vals:
@@ -45,12 +45,12 @@ class _Vals:
         return self.idx[k]
 
 
-TINY = [10 ** 3, 5 * 10 ** 6, 25 * 10 ** 7, 10 ** 9, 10 ** 10, 3 * 10 ** 4, 12 * 10 ** 2, 7 * 10 ** 11, 10 ** 11, 4 * 10 ** 8]
+TINY = [100 * x for x in (10 ** 3, 5 * 10 ** 6, 25 * 10 ** 7, 10 ** 9, 10 ** 10, 3 * 10 ** 4, 12 * 10 ** 2, 7 * 10 ** 11, 10 ** 11, 4 * 10 ** 8)]
 # 1e-12, 5e-09, 2.5e-07, 1e-06, 1e-05, 3e-11, 1.2e-12, 0.0007, 0.0001, 4e-07
 
 
 def _column(rng, c, style, used):
-    """c non-negative integers (units of 1e-15) summing to 1e15"""
+    """c non-negative integers (units of 1e-17) summing to 1e17"""
     if c == 1:
         return [SCALE]
     for attempt in range(400):
@@ -65,9 +65,9 @@ def _column(rng, c, style, used):
             col = sm + [SCALE - sum(sm)]
             rng.shuffle(col)
         else:
-            digits = 15 if (style == "full" or rng.random() < 0.5) else rng.choice([2, 3, 4, 6])
+            digits = 17 if (style == "full" or rng.random() < 0.5) else rng.choice([2, 3, 4, 6])
             cuts = sorted(rng.sample(range(1, 10 ** digits), c - 1))
-            col = [(b - a) * 10 ** (15 - digits) for a, b in zip([0] + cuts, cuts + [10 ** digits])]
+            col = [(b - a) * 10 ** (17 - digits) for a, b in zip([0] + cuts, cuts + [10 ** digits])]
         if not all(_tie_free(k) for k in col):
             continue
         if attempt < 300 and (len(set(col)) < c or (set(col) & used)):
@@ -121,7 +121,7 @@ def mn_instance(rng, stress, cards, scopes, style="generic"):
                 elif rng.random() < 0.15:
                     k = rng.choice([0, 1, 2, 10, 25]) * SCALE                       # exact 0, 1.0, 2.0, 10.0, 25.0
                 else:
-                    k = rng.randrange(1, 30 * 10 ** 6) * 10 ** 9                    # potentials < 30 with six decimals
+                    k = rng.randrange(1, 30 * 10 ** 6) * 10 ** 11                   # potentials < 30 with six decimals
                 if _tie_free(k):
                     break
             cells.append(vals.tok(k))
@@ -134,7 +134,8 @@ def instances(rng, thorough):
     out = [
         bn_instance(rng, "generic", [2, 3, 4, 2], {2: [0, 1], 3: [0, 1, 2]}, [2, 3]),
         bn_instance(rng, "equal_cards", [2, 2, 2], {2: [0, 1]}, [2], "full"),
-        bn_instance(rng, "card1", [1, 3, 2, 1], {2: [0, 1]}, [2]),
+        bn_instance(rng, "card1", [1, 3, 2], {2: [0, 1]}, [2]),
+        bn_instance(rng, "isolated", [2, 2, 3], {1: [0]}, []),
         bn_instance(rng, "tiny", [3, 2, 2], {1: [0], 2: [0, 1]}, [2], "tiny"),
         bn_instance(rng, "deterministic", [2, 3, 2], {1: [0], 2: [0, 1]}, [2], {0: "generic", 1: "det", 2: "det"}),
         bn_instance(rng, "single", [3], {}, []),
@@ -152,8 +153,16 @@ def instances(rng, thorough):
             bn_instance(rng, "card10", [12, 2, 3, 10], {3: [0, 1]}, [3]),
             mn_instance(rng, "mn", [3, 2, 2, 4], [[3, 0], [0, 1, 2], [2, 3], [1], [1, 3]]),
             mn_instance(rng, "mn", [10, 2, 3], [[0, 1], [2, 0]]),
+            bn_instance(rng, "parents5", [2, 2, 2, 2, 2, 3], {5: [0, 1, 2, 3, 4]}, [5], "full"),
         ]
-        for k in range(6):                                # random DAGs: 3-6 nodes, cards 1-5, 0-3 parents
+        for k in range(3):                                # random Markov networks
+            n = rng.randint(3, 5)
+            cards = [rng.choice([2, 2, 3, 4]) for _ in range(n)]
+            scopes = [[i, (i + 1) % n] for i in range(n)] + [rng.sample(range(n), 3)] + [[rng.randrange(n)]]
+            for sc in scopes:
+                rng.shuffle(sc)
+            out.append(mn_instance(rng, "mn", cards, scopes, rng.choice(["generic", "tiny"])))
+        for k in range(12):                               # random DAGs: 3-6 nodes, cards 1-5, 0-3 parents
             n = rng.randint(3, 6)
             cards = [rng.choice([1, 2, 2, 3, 3, 4, 5]) for _ in range(n)]
             parents = {i: rng.sample(range(i), min(i, rng.choice([0, 1, 2, 2, 3]))) for i in range(1, n)}
@@ -165,17 +174,19 @@ def instances(rng, thorough):
 
 
 # =========================================================================== planning
-def routes(fmt, kind, nj2, strings):
+def routes(fmt, kind, k, ci, thorough, big, nj2):
+    """k = index of the concretisation within its case.  One BIFReader costs ~2.5 s (pyparsing Word over the unicode
+    alphanumerics is rebuilt three times per reader), so the BIF routes are thinned."""
+    strings = thorough and not big and k % 4 == 0
     if kind == "MN":
         return ["class"] + (["string"] if strings else [])
-    r = ["class"]
-    if fmt != "NET":
-        r.append("saveload")
-    if strings:
-        r.append("string")
-    if fmt == "BIF" and nj2:
-        r += ["class_nj2", "saveload_nj2"]
-    return r
+    if fmt != "BIF":
+        return ["class"] + (["saveload"] if fmt != "NET" else []) + (["string"] if strings else [])
+    if thorough:
+        r = (["class"] if k < 8 else []) + (["saveload"] if k < 3 else []) + (["string"] if k == 0 and not big else [])
+    else:
+        r = ["class"] + (["saveload"] if k == 0 else [])
+    return r + (["class_nj2", "saveload_nj2"] if nj2 else [])
 
 
 def plan(ctx, insts, cases, rng):
@@ -184,18 +195,17 @@ def plan(ctx, insts, cases, rng):
     events = []
     percase = {}
     for ci, c in enumerate(cases):
-        inst = byid[c["inst"]]
         percase.setdefault(c["inst"], []).append(ci)
     for ci, c in enumerate(cases):
         inst = byid[c["inst"]]
-        big = inst["stress"] == "big"
+        big = inst["stress"] in ("big", "parents5")        # many cells / many orders: fewer concretisations
         if big and not ctx.thorough and percase[c["inst"]].index(ci) not in (1, 4):
             continue                                       # quick: two of the six orders of the 1008-cell table
         concs = []
         for hs in hseeds:
             if big and hs > 1:
                 continue
-            if ctx.thorough or hs == 0:
+            if hs == 0 or (ctx.thorough and hs % 2 == 0):
                 concs.append((hs, "plain"))
             concs.append((hs, KW_CLASSES[(ci + hs) % 4]))
             if not ctx.thorough and not big:
@@ -204,13 +214,14 @@ def plan(ctx, insts, cases, rng):
         for hs, cls in concs:
             if (hs, cls) in seen:
                 continue
+            k = len(seen)
             seen.add((hs, cls))
             cseed = rng.randrange(10 ** 9)
-            nj2 = (not big) and cls == "plain" and (ci % (3 if ctx.thorough else 6) == 0) and hs in (0, 1)
+            nj2 = (not big) and cls == "plain" and (ci % (3 if ctx.thorough else 8) == 0) and hs in (0, 1)
             for fmt in (["BIF", "XMLBIF", "NET", "UAI"] if inst["kind"] == "BN" else ["UAI"]):
-                for route in routes(fmt, inst["kind"], nj2, strings=(ctx.thorough and not big and hs % 4 == 0)):
+                for route in routes(fmt, inst["kind"], k, ci, ctx.thorough, big, nj2):
                     events.append({"tid": len(events) + 1, "inst": c["inst"], "ord": c["ord"], "model": c["model"], "fmt": fmt,
-                                   "route": route, "hs": hs, "names": cls, "cseed": cseed, "case": ci, "heavy": big})
+                                   "route": route, "hs": hs, "names": cls, "cseed": cseed, "case": ci, "heavy": inst["stress"] == "big"})
     return events
 
 
@@ -244,32 +255,33 @@ def validate(ctx, insts, traces, tag):
     return out
 
 
+def _cost(e):
+    return (2.6 if e["fmt"] == "BIF" else 0.06) * (2 if e.get("heavy") else 1) + (0.3 if e["route"].endswith("nj2") else 0)
+
+
 def execute(ctx, insts, events, nproc):
-    """run the events on pgmpy (grouped by hash seed), return {tid: result}"""
+    """run the events on pgmpy; one process has one hash seed, processes are shared out by estimated cost
+    (the events of one (case, concretisation) stay together and in order)"""
     byid = {i["id"]: i for i in insts}
     tmp = os.path.join(ctx.work, "files")
     os.makedirs(tmp, exist_ok=True)
-    pl = []
     hss = sorted({e["hs"] for e in events})
-    per = max(1, nproc // max(1, len(hss)))
+    cost = {hs: sum(_cost(e) for e in events if e["hs"] == hs) for hs in hss}
+    total = sum(cost.values()) or 1.0
+    procs = {hs: max(1, int(nproc * cost[hs] / total + 0.5)) for hs in hss}
+    pl = []
     for hs in hss:
-        evs = [e for e in events if e["hs"] == hs]
-        heavy = [e for e in evs if e.get("heavy")]
-        light = [e for e in evs if not e.get("heavy")]
-        # keep the events of one (case, concretisation) together; spread the heavy ones
         groups = {}
-        for e in light:
-            groups.setdefault((e["case"], e["cseed"]), []).append(e)
-        glist = list(groups.values())
-        buckets = [[] for _ in range(per)]
-        for gi, g in enumerate(glist):
-            buckets[gi % per] += g
-        hg = {}
-        for e in heavy:
-            hg.setdefault((e["case"], e["cseed"]), []).append(e)
-        for gi, g in enumerate(hg.values()):
-            buckets[(per - 1 - gi) % per] += g
-        for b in buckets:
+        for e in events:
+            if e["hs"] == hs:
+                groups.setdefault((e["case"], e["cseed"]), []).append(e)
+        glist = sorted(groups.values(), key=lambda g: -sum(_cost(e) for e in g))
+        buckets = [[0.0, []] for _ in range(procs[hs])]
+        for g in glist:
+            b = min(buckets, key=lambda x: x[0])
+            b[0] += sum(_cost(e) for e in g)
+            b[1] += g
+        for _, b in buckets:
             if b:
                 need = {e["inst"] for e in b}
                 pl.append((hs, {"insts": {str(i): byid[i] for i in need}, "events": b, "tmp": tmp}))
@@ -301,6 +313,7 @@ def _features(ev, inst):
         for v in f["scope"]:
             deg[v] += len(f["scope"]) - 1
     return {"route": ev["route"], "names": ev["names"], "kind": inst["kind"], "exponent_values": small, "cells_gt_1000": size > 1000,
+            "card1": any(c == 1 for c in card.values()),
             "max_parents": min(2, max(len(f["scope"]) - 1 for f in inst["fams"])) if inst["kind"] == "BN" else 0,
             "isolated_node": any(d == 0 for d in deg.values()) and len(inst["nodes"]) > 1}
 
@@ -346,7 +359,7 @@ def generate(ctx, insts, tag="Gen", docs=False):
 
 def run(ctx):
     ctx.rule = ("instances: BNs with cards 1-12 (unequal and equal), 0-4 parents, isolated/single nodes, tables of 1008 cells, values "
-                "1e-12..1 incl. exact 0/1 and 15-digit decimals; Markov networks for UAI. TLC enumerates EVERY declared evidence order "
+                "1e-12..1 incl. exact 0/1 and 17-digit decimals; Markov networks for UAI. TLC enumerates EVERY declared evidence order "
                 "of the permutable families x every format; each is replayed under several (hash seed, name class) concretisations and "
                 "routes (classes, str/string, save/load, n_jobs 1/2). distinct = (instance, order, format); non-trivial iff the model has an edge.")
     ctx.assumptions += [
